@@ -6,6 +6,10 @@ _NOTE = ("Bounded: holds for all values within the bounds recorded in the eviden
 _TECH = "symbolic execution of the real Python code on z3-backed proxy values (BV64/Float64/Real), branch decisions and obligations decided by z3, counterexamples replayed concretely"
 
 CLAIMS = {
+    "C12": {
+        "text": "Bounded symbolic model checking of the notification paths of both API generations after the real handshake: recording subscribers on the AirTouch, an AC (general and AC-state-only), a zone and a second AC, in a solver-enumerated arrangement (once / twice / unsubscribed again; raising subscriber present or not); frame 1 repeats the last report bit for bit, frame 2 has free record bytes, frame 3 is a fixed different report. z3 shows: identical reports are silent, a changed exposed attribute notifies exactly the right subscribers with the right identifier exactly once, zone changes reach the owning AC's general subscribers but not its AC-state-only ones, unsubscribing stops calls, a raising subscriber starves nobody and later frames still notify.",
+        "note": _NOTE, "technique": _TECH, "design_ref": "DESIGN.md section 6 C12",
+    },
     "C10": {
         "text": "Bounded symbolic model checking of the API object model of both generations after the real handshake: status records with free bytes (restricted to protocol-defined values), timer, error and version frames arrive through the real receive path, in histories of 1-2 (quick) / 3 (thorough) frames with the last one free; a solver-enumerated index picks the entity and the public getter inspected, and z3 shows it equals the reference reading of the most recent frame about that entity (selected vs active mode/fan, limits by mode, spill/bypass, error details only with an error code and never stale, timers, version), that defined values are accepted without reset, and that unknown entity ids are ignored.",
         "note": _NOTE, "technique": _TECH, "design_ref": "DESIGN.md section 6 C10",
